@@ -304,6 +304,8 @@ class Ctx:
             spent = time.time() - self.run_started
             if (self.broken or self.violations) and spent > self.SEARCH_LIMIT[self.tier]:
                 raise StopSearch("search budget of %d s used up" % self.SEARCH_LIMIT[self.tier])
+            if len(self.violations) >= 8 and self.tier == "quick":
+                raise StopSearch("8 concrete failing inputs found: the search has its answer")
         self.evaluations += n
         if nontrivial and key is not None:
             self.distinct.add(hashlib.sha1(repr(key).encode()).hexdigest())
